@@ -33,6 +33,8 @@ type mixOpts struct {
 	extraTx    int
 	sameSource bool // concentrate spending on one user
 	v1         float64
+	wBulk      int     // bulks of two or three elements, atomic or not
+	pristine   float64 // probability that the concurrent phase starts on a ledger without any write
 }
 
 func mixedScenario(r *RNG, prop, name string, o mixOpts, checks ...string) *Scenario {
@@ -46,9 +48,12 @@ func mixedScenario(r *RNG, prop, name string, o mixOpts, checks ...string) *Scen
 		var ops []Op
 		for i := 0; i < n; i++ {
 			tot := o.wPostings + o.wScript + o.wRevert + o.wMeta
-			x := r.Intn(tot)
+			x := r.Intn(tot + o.wBulk)
 			var op Op
 			switch {
+			case x >= tot:
+				op = Op{Kind: KBulk, Ledger: "l1", Atomic: r.Bool(), ContinueOnFailure: r.Chance(0.3)}
+				op.Elements, _ = g.bulkElements("l1", fmt.Sprintf("b%d", c), nil, 2+r.Intn(2), false)
 			case x < o.wPostings:
 				op = g.postingsOp("l1", 3, true, o.big)
 			case x < o.wPostings+o.wScript:
@@ -68,10 +73,10 @@ func mixedScenario(r *RNG, prop, name string, o mixOpts, checks ...string) *Scen
 					}
 				}
 			}
-			if r.Chance(o.wDry) {
+			if r.Chance(o.wDry) && op.Kind != KBulk {
 				op.DryRun = true
 			}
-			if r.Chance(o.wIK) {
+			if r.Chance(o.wIK) && op.Kind != KBulk {
 				op.IK = "ik-" + op.ID
 			}
 			if r.Chance(o.v1) && (op.Kind == KPostings || op.Kind == KRevert || op.Kind == KTxMetaSet || op.Kind == KAcctMetaSet) && !op.DryRun && op.IK == "" {
@@ -103,7 +108,37 @@ func mixedScenario(r *RNG, prop, name string, o mixOpts, checks ...string) *Scen
 		}
 		sc.Clients = append(sc.Clients, ops)
 	}
+	if r.Chance(o.pristine) {
+		pristineStart(sc)
+	}
 	return sc
+}
+
+// pristineStart: the concurrent phase begins on a ledger nobody has written to (its first write goes
+// through the state tracker's own transaction); operations that need an existing transaction are dropped.
+func pristineStart(sc *Scenario) {
+	sc.Setup = sc.Setup[:1]
+	for ci := range sc.Clients {
+		var keep []Op
+		for _, op := range sc.Clients[ci] {
+			switch op.Kind {
+			case KPostings, KScript, KAcctMetaSet, KAcctMetaDel:
+				keep = append(keep, op)
+			case KBulk:
+				var els []Op
+				for _, e := range op.Elements {
+					if e.Kind == KPostings || e.Kind == KScript || e.Kind == KAcctMetaSet || e.Kind == KAcctMetaDel {
+						els = append(els, e)
+					}
+				}
+				if len(els) > 0 {
+					op.Elements = els
+					keep = append(keep, op)
+				}
+			}
+		}
+		sc.Clients[ci] = keep
+	}
 }
 
 func init() {
@@ -136,7 +171,7 @@ func init() {
 	}})
 	register(Profile{Property: "C07", Name: "failed-writes-explore", Gen: func(r *RNG, seed uint64, tier string) (*Scenario, *ExploreCfg) {
 		sc := mixedScenario(r, "C07", "failed-writes-explore", mixOpts{clients: [2]int{1, 3}, opsPer: [2]int{2, 5}, wPostings: 4, wScript: 4, wRevert: 3, wMeta: 4, wDry: 0.25, wIK: 0.1,
-			funds: fmt.Sprint(5 + r.Intn(40)), extraTx: 3, v1: 0.1}, "logs-match-ops", "replay", "events", "no-leaked-locks")
+			funds: fmt.Sprint(5 + r.Intn(40)), extraTx: 3, v1: 0.1, wBulk: 2, pristine: 0.25}, "logs-match-ops", "replay", "events", "no-leaked-locks")
 		ex := defaultExplore(seed, 0.08, 4, cleanStoreFaults...)
 		return sc, ex
 	}})
@@ -151,20 +186,8 @@ func init() {
 	}})
 	register(Profile{Property: "C31", Name: "events-explore", Gen: func(r *RNG, seed uint64, tier string) (*Scenario, *ExploreCfg) {
 		sc := mixedScenario(r, "C31", "events-explore", mixOpts{clients: [2]int{1, 3}, opsPer: [2]int{1, 4}, wPostings: 4, wScript: 2, wRevert: 2, wMeta: 4, wDry: 0.15,
-			funds: fmt.Sprint(5 + r.Intn(40)), extraTx: 2}, "events", "logs-match-ops")
-		// half of the runs: the concurrent phase starts on a pristine ledger (first write)
-		if r.Bool() {
-			sc.Setup = sc.Setup[:1]
-			for ci := range sc.Clients {
-				var keep []Op
-				for _, op := range sc.Clients[ci] {
-					if op.Kind == KPostings || op.Kind == KScript || op.Kind == KAcctMetaSet || op.Kind == KAcctMetaDel {
-						keep = append(keep, op)
-					}
-				}
-				sc.Clients[ci] = keep
-			}
-		}
+			funds: fmt.Sprint(5 + r.Intn(40)), extraTx: 2, wBulk: 2, pristine: 0.5}, "events", "logs-match-ops")
+		// (half of the runs: the concurrent phase starts on a pristine ledger: first write)
 		ex := defaultExplore(seed, 0.06, 3, FStmtErr, FConnLost, FDeadlock, FCommitClean)
 		return sc, ex
 	}})
